@@ -533,7 +533,7 @@ Definition has_element_u (v elem : value) : res value :=
   if negb (is_known v) then Ok unk_not_null else
   let early_false :=
     match vty v with
-    | TSet e => negb (is_dyn (vty elem)) && negb (is_dyn e) && negb (ty_equals (vty elem) e)
+    | TSet e => negb (has_dyn (vty elem)) && negb (has_dyn e) && negb (ty_equals (vty elem) e)   (* fix: commit 06b2970 (was: is_dyn) *)
     | _ => false
     end in
   if early_false then Ok v_false else
